@@ -28,7 +28,7 @@ def demo():
     src = open(O + '/demo.cc').read()
     hdr = '\n'.join(src.split('\n')[:40])
     san = '-fsanitize=address' if '-fsanitize=address' in hdr else ''
-    cmd = 'g++ -std=gnu++20 -g %s -I%s/src -I%s %s/demo.cc %s/_build/libphosg.a -lz -lpthread -o %s/demo' % (san, W, W, O, W, O)
+    cmd = 'g++ -std=gnu++20 -g %s -I%s/src -I%s %s/demo.cc %s/_build/libphosg.a -lz -lpthread %s -o %s/demo' % (san, W, W, O, W, ' -lcrypto' if '-lcrypto' in hdr else '', O)
     rc, out = sh(cmd)
     if rc != 0:
         return None, 'demo does not compile: ' + out[-800:]
